@@ -7,6 +7,7 @@ import (
 	"strings"
 
 	"ddcheck/core"
+	"ddcheck/pea"
 
 	"golang.org/x/tools/go/ssa"
 )
@@ -359,6 +360,42 @@ func C14(p *core.Program, r *core.Report) {
 	}
 	// ---- P8
 	checkPrefixTable(p, r, "P8")
+
+	// ---- P9: what the three markup parsers read is the page as the caller gave it: nothing below
+	// Apply rewrites the caller's document (the converter works on a clone) - effect analysis,
+	// shared with C10-M1. A conversion pass that consumed the tree itself (font -> span, detached
+	// javascript: anchors, unwrapped elements) would change what the parsers of a later call see.
+	{
+		a := runPEA(p)
+		for _, e := range entryPoints {
+			if e.name != "Apply" {
+				continue
+			}
+			fn := p.Func(core.ModPath + "." + e.name)
+			if fn == nil {
+				r.Undecided("P9", "entry point Apply", "not found")
+				continue
+			}
+			bind := map[int]int32{e.opts: a.CallerOpts}
+			if e.doc >= 0 {
+				bind[e.doc] = a.CallerDoc
+			}
+			var hits []string
+			seen := map[string]bool{}
+			for _, ef := range a.EntryEffects(fn, bind) {
+				li := a.Label(ef.Target)
+				if li.Kind != pea.KCaller || li.Name != "CallerDoc" {
+					continue
+				}
+				h := fmt.Sprintf("%s written by %s", ef.Field, core.ShortKey(ef.Fn))
+				if !seen[h] && len(hits) < 4 {
+					seen[h] = true
+					hits = append(hits, h+" ("+strings.Join(a.Chain(ef), " > ")+")")
+				}
+			}
+			r.Add("P9", "Apply: the document the markup parsers read is never rewritten", p.Pos(fn.Pos()), len(hits) == 0, strings.Join(hits, "; "))
+		}
+	}
 
 }
 
